@@ -72,6 +72,10 @@ static void run_op(const std::vector<std::string> &w, const std::string &, out &
         }
         o.result = t.show();
         if (maxsize > 0) o.fail("receiver without a buffer stored bytes");
+        // round 3b: cstr() on the receiver that never got a buffer (sline {NULL, 0}): must store nothing (a
+        // store would go through NULL: crash) and size() stays 0 - theorem cstr_nobuf_any_time
+        (void)r.cstr();
+        if (r.size() != 0) o.fail("receiver without a buffer: size() != 0 after cstr()");
         o.tag("no-buffer");
         if (t.sts.find('O') != std::string::npos) o.tag("overflow");
         return;
